@@ -243,7 +243,7 @@ pub fn units(tier: Tier, seed: u64) -> Vec<Unit> {
     }
     // larger windows and streams much longer than the window: the comparison path of pseudo-random sample inputs (concolic);
     // the obligations are still decided for every input that follows that path
-    let big: Vec<(usize, usize)> = if tier == Tier::Quick { vec![(8, 18), (16, 34), (2, 40), (3, 60)] } else { vec![(6, 14), (8, 18), (12, 26), (16, 34), (32, 66), (2, 40), (3, 60), (5, 100)] };
+    let big: Vec<(usize, usize)> = if tier == Tier::Quick { vec![(4, 10), (5, 12), (6, 14), (7, 16), (8, 18), (9, 20), (10, 22), (12, 26), (16, 34), (2, 40), (3, 60)] } else { vec![(6, 14), (8, 18), (12, 26), (16, 34), (32, 66), (2, 40), (3, 60), (5, 100)] };
     let first = u.len();
     for &(n, k) in &big {
         u.push(unit!(format!("C02/Sma/N={n}/k={k}/sample-path"), sma(n, k)));
@@ -254,6 +254,16 @@ pub fn units(tier: Tier, seed: u64) -> Vec<Unit> {
         u.push(unit!(format!("C02/BinaryEntropy/N={n}/k={k}/sample-path"), binary_entropy(n, k)));
         if n <= 16 { u.push(unit!(format!("C02/WelfordOnline/N={n}/k={k}/sample-path"), welford(n, k.min(n + 12)))); u.push(unit!(format!("C02/Vst/N={n}/k={k}/sample-path"), vst(n, k.min(n + 12), false))); u.push(unit!(format!("C02/Vsct/N={n}/k={k}/sample-path"), vst(n, k.min(n + 12), true))); }
         if n <= 8 { u.push(unit!(format!("C02/HLNormalizer/N={n}/k={k}/sample-path"), hln(n, k.min(2 * n + 8)))); }
+    }
+    // boundary window lengths (powers of two and their neighbours) for the cheap views
+    for &n in &(if tier == Tier::Quick { vec![31usize, 32, 33, 63, 64, 65] } else { vec![15usize, 17, 31, 32, 33, 63, 64, 65, 127, 128, 129] }) {
+        let k = n + 6;
+        u.push(unit!(format!("C02/Sma/N={n}/k={k}/sample-path"), sma(n, k)));
+        u.push(unit!(format!("C02/Cumulative/N={n}/k={k}/sample-path"), cumulative(n, k)));
+        u.push(unit!(format!("C02/Min/N={n}/k={k}/sample-path"), minmax(n, k, false)));
+        u.push(unit!(format!("C02/Max/N={n}/k={k}/sample-path"), minmax(n, k, true)));
+        u.push(unit!(format!("C02/Roc/N={n}/k={k}/sample-path"), roc(n, k)));
+        u.push(unit!(format!("C02/BinaryEntropy/N={n}/k={k}/sample-path"), binary_entropy(n, k)));
     }
     for (i, x) in u.iter_mut().enumerate().skip(first) { x.concolic = Some(seed * 31 + 1 + (i as u64 % 2)); x.budget_s = 60.0; x.max_decisions = 60000; }
     // shaped long streams, fully symbolic (all comparison outcomes): strictly monotone streams of length 10N+6, where every eviction
@@ -286,7 +296,7 @@ pub fn units(tier: Tier, seed: u64) -> Vec<Unit> {
 pub fn meta() -> Meta {
     Meta {
         functions: vec!["Sma::{update,last}", "Cumulative::{update,last}", "Min::{update,last}", "Max::{update,last}", "WelfordOnline::{update,last,mean,variance}", "HLNormalizer::{update,last}", "Roc::{update,last}", "BinaryEntropy::{update,last}", "Vst::{update,last}", "Vsct::{update,last}", "Echo::{update,last}"],
-        bounds: "window length N in {1,2,3} (quick) / {1..5} (thorough; HLNormalizer to 4); stream length k = 2N+2 so every value enters and leaves the window; inputs are unconstrained reals; every feasible outcome of every comparison the real code performs is explored; in addition (N,k) in {(8,18),(16,34),(2,40),(3,60)} (quick) / up to (32,66),(5,100) (thorough) along the comparison path of a pseudo-random sample input (larger windows, streams much longer than the window); and fully symbolic shaped long streams for N in {1,2,3} (quick) / {1,2,3,4,6}: strictly decreasing / increasing streams of length 10N+6 for Min/Max/HLNormalizer, and 8N+2 alternating values + a flat run of 5 + 2 free values for Sma/Cumulative/WelfordOnline/Vst/Vsct/Roc/Max",
+        bounds: "window length N in {1,2,3} (quick) / {1..5} (thorough; HLNormalizer to 4); stream length k = 2N+2 so every value enters and leaves the window; inputs are unconstrained reals; every feasible outcome of every comparison the real code performs is explored; in addition every N in 4..10, 12, 16 at k=2N+2, (2,40),(3,60), and the boundary lengths 31,32,33,63,64,65 at k=N+6 for the cheap views (quick) / up to (32,66),(5,100) (thorough) along the comparison path of a pseudo-random sample input (larger windows, streams much longer than the window); and fully symbolic shaped long streams for N in {1,2,3} (quick) / {1,2,3,4,6}: strictly decreasing / increasing streams of length 10N+6 for Min/Max/HLNormalizer, and 8N+2 alternating values + a flat run of 5 + 2 free values for Sma/Cumulative/WelfordOnline/Vst/Vsct/Roc/Max",
         outside: vec!["N > 5, streams longer than 2N+2", "the f64 clause ('differs only by rounding noise'): obligations are decided over the reals", "overflow, -0.0, subnormals"],
         assumptions: vec!["BinaryEntropy: log2 of the (concrete, per-path) window fraction is evaluated with the platform libm and compared to 1e-12"],
     }
